@@ -446,7 +446,10 @@ class Natives(object):
         bq = ex.module.resolve_name(base.id) if isinstance(base, ast.Name) else None
         if bq is None or bq == 'object':
             return vnone()
-        mi, fn = find_function(ex.module.repo, bq + '.__init__') if bq.startswith('py_stringsimjoin') else (None, None)
+        try:
+            mi, fn = find_function(ex.module.repo, bq + '.__init__') if bq.startswith('py_stringsimjoin') else (None, None)
+        except Undecided:
+            mi, fn = None, None          # the base class defines no __init__ (object.__init__)
         if fn is None:
             return vnone()
         args = [ex.eval(st, a) for a in e.args]
